@@ -2196,3 +2196,29 @@ Fixpoint ex_pers (p : pworld) (inputs : list bytes) : pworld :=
   | [] => p
   | i :: r => ex_pers (fst (request_persisted 200 (app_rsrc ex_eng_app) ex_cfg p i)) r
   end.
+
+(* ---- against the DOCUMENTED table: guard up_free (no "_" at the entry node among the moves) ---- *)
+Lemma run_follows_spec_partial : forall fuel rs sep lang b v v' b' s,
+  cache_ok (v_ca v) -> run fuel rs sep lang b v = (v', b', s) ->
+  exists new, v_log v' = new ++ v_log v
+    /\ (up_free (pos_of (v_st v)) (log_moves new) = true ->
+        nav_fold nav_spec (pos_of (v_st v)) (log_moves new) = Some (pos_of (v_st v'))).
+Proof.
+  intros fuel rs sep lang b v v' b' s Hc H.
+  destruct (run_follows _ _ _ _ _ _ _ _ _ Hc H) as (_ & new & L & F).
+  exists new. split; [exact L|]. intros G. rewrite (fold_spec_code _ _ G). exact F.
+Qed.
+
+Lemma run_follows_spec_refuted_up_at_entry :
+  exists fuel rs sep lang b v v' b' s new,
+    cache_ok (v_ca v) /\ run fuel rs sep lang b v = (v', b', s)
+    /\ v_log v' = new ++ v_log v /\ log_moves new = [t_up]
+    /\ up_free (pos_of (v_st v)) (log_moves new) = false
+    /\ nav_fold nav_spec (pos_of (v_st v)) (log_moves new) = None
+    /\ pos_of (v_st v) = ([s2b "root"], 0) /\ pos_of (v_st v') = ([], 0).
+Proof.
+  exists 20%nat, (app_rsrc ex_app), [], None, (incmp_block [(t_up, s2b "0")]), (ex_vm 0 (s2b "0")).
+  eexists. eexists. eexists. exists [EvCode []; EvMove 1 t_up []; EvInCmp t_up (s2b "0") true; EvInstr op_INCMP].
+  split; [vm_compute; discriminate|]. split; [vm_compute; reflexivity|].
+  split; [vm_compute; reflexivity|]. vm_compute. repeat split.
+Qed.
